@@ -705,7 +705,12 @@ func (x *Exec) emptySet(mt *types.Map) Term {
 func (x *Exec) mapDom(st *State, m Val) Term {
 	mt := under(m.T).(*types.Map)
 	dk, ds, _, _ := x.mapKeys(mt)
-	return sel(x.heapGet(st, dk, ds), m.S)
+	d := sel(x.heapGet(st, dk, ds), m.S)
+	// a nil map is empty in every state
+	if m.S != "" && len(d) < 400 {
+		x.sc.assert(implies(eq(m.S, "0"), eq(d, x.emptySet(mt))))
+	}
+	return d
 }
 
 func (x *Exec) mapLen(st *State, m Val) Term {
